@@ -32,7 +32,8 @@ LEVEL_NOTE = (
     "Trusted: CPython, struct, the hand-written code table and frames in vlib/apci_gen.py (cross-checked against the library's enums; "
     "a mismatch is inconclusive). Judged: exception class of every decode, 'unsupported' for a code of a recognised service, LINE events "
     "<= 400+40*len on a sample (termination in logical steps; the wall watchdog only yields inconclusive), the mapping to "
-    "UnsupportedCEMIMessage/CouldNotParseCEMI in CEMILData.from_knx. Not judged: which of object/ConversionError a recognised code yields, "
+    "UnsupportedCEMIMessage/CouldNotParseCEMI in CEMILData.from_knx under every data TPCI legal for the destination kind (T_Data_Group, "
+    "T_Data_Tag_Group, T_Data_Broadcast, T_Data_Individual, T_Data_Connected seq 0..15). Not judged: which of object/ConversionError a recognised code yields, "
     "the three legacy A_RouterStatus_* codes (documented as unsupported), objects returned for unallocated codes by the tolerant dispatcher (counted)."
 )
 SHARDS = {"quick": 1, "thorough": 16}
@@ -215,25 +216,36 @@ class Judge:
 # -- cEMI mapping -------------------------------------------------------------
 
 
-def _cemi_for(apdu, individual):
-    """L_Data body (control fields .. TPDU) carrying `apdu` as T_Data_Group / T_Data_Individual."""
+# data TPCIs legal for each destination kind: (name, Ctrl2, destination, TPCI octet without the two APCI bits)
+CEMI_VARIANTS = (
+    ("T_Data_Group", 0xE0, b"\x09\x01", 0x00),
+    ("T_Data_Tag_Group", 0xE0, b"\x09\x01", 0x04),
+    ("T_Data_Broadcast", 0xE0, b"\x00\x00", 0x00),
+    ("T_Data_Individual", 0x60, b"\x11\x0a", 0x00),
+    *((f"T_Data_Connected/{seq}", 0x60, b"\x11\x0a", 0x40 | seq << 2) for seq in range(16)),
+)
+CEMI_VARIANT_BY_NAME = {v[0]: v for v in CEMI_VARIANTS}
+
+
+def _cemi_for(apdu, variant):
+    """L_Data body (control fields .. TPDU) carrying `apdu` under the given data TPCI / destination kind."""
+    _, ctrl2, dst, tpci = variant
     npdu_len = len(apdu) - 1
     ctrl1 = 0xBC if npdu_len <= 15 else 0x3C
-    ctrl2 = 0x60 if individual else 0xE0
-    dst = b"\x11\x0a" if individual else b"\x09\x01"
-    tpdu = bytes([apdu[0] & 0x03]) + apdu[1:]
+    tpdu = bytes([tpci | (apdu[0] & 0x03)]) + apdu[1:]
     return bytes([ctrl1, ctrl2]) + b"\x11\x01" + dst + bytes([npdu_len]) + tpdu
 
 
-def judge_cemi(ctx, apdu, individual):
-    """CEMILData.from_knx must map the APCI outcome as the statement says."""
+def judge_cemi(ctx, apdu, variant):
+    """CEMILData.from_knx must map the APCI outcome as the statement says, whatever data TPCI carries the APDU."""
     if not 1 <= len(apdu) <= 256:
         return
     plain = bytes([apdu[0] & 0x03]) + apdu[1:]
     kind, val = outcome_of(plain)
     if kind == "other":
         return  # already reported by the APCI monitor
-    frame = _cemi_for(apdu, individual)
+    frame = _cemi_for(apdu, variant)
+    tname = variant[0].split("/")[0]
     ctx.ev()
     try:
         data = CEMILData.from_knx(frame)
@@ -246,15 +258,16 @@ def judge_cemi(ctx, apdu, individual):
         got, data = type(exc).__name__, exc
     expected = {"obj": "frame", "unsup": "UnsupportedCEMIMessage", "conv": "CouldNotParseCEMI"}[kind]
     ctx.count(f"cemi_{expected}")
+    ctx.count(f"cemi_tpci_{tname}")
     ok = got == expected
     if ok and got == "frame":
         ok = same(data.payload, val)
     if not ok:
         ctx.violation(
-            f"cemi-maps-apdu-{kind}-to-{got}",
-            {"kind": "cemi", "apdu": apdu.hex(), "individual": individual, "cemi": frame[:80].hex(),
+            f"cemi-maps-apdu-{kind}-to-{got}:{tname}",
+            {"kind": "cemi", "apdu": apdu.hex(), "tpci": variant[0], "cemi": frame[:80].hex(),
              "apci_outcome": kind, "observed": got, "detail": repr(data)[:300]},
-            f"CEMILData.from_knx with APDU {plain[:16].hex()} (APCI outcome {kind}) gave {got}, expected {expected}",
+            f"CEMILData.from_knx with APDU {plain[:16].hex()} (APCI outcome {kind}) in a {variant[0]} frame gave {got}, expected {expected}",
         )
     ctx.count("cemi_mapping_checked")
 
@@ -335,6 +348,8 @@ def run(ctx):
     ctx.require(
         "decoded_to_object", "conversion_error", "unsupported_service", "recognised_code_malformed",
         "step_budget_samples", "cemi_mapping_checked", "cemi_frame", "cemi_UnsupportedCEMIMessage", "cemi_CouldNotParseCEMI",
+        "cemi_tpci_T_Data_Group", "cemi_tpci_T_Data_Tag_Group", "cemi_tpci_T_Data_Broadcast", "cemi_tpci_T_Data_Individual",
+        "cemi_tpci_T_Data_Connected",
     )
     _cross_check_tables(ctx)
     judge = Judge(ctx)
@@ -396,8 +411,16 @@ def run(ctx):
     ]
 
     # 5. mapping in CEMILData.from_knx ----------------------------------------
+    # every data TPCI legal for its destination kind: valid frames, rejection classes and every 16th sampled input under all 20,
+    # the rest under the four connectionless ones plus two rotating sequence numbers
+    full = {raw for _, raw in G.canonical_frames()} | {raw for _, raw in G.rejection_classes()}
     for i, raw in enumerate(cemi_inputs):
-        judge_cemi(ctx, raw, individual=bool(i & 1))
+        if raw in full or i % 16 == 0:
+            variants = CEMI_VARIANTS
+        else:
+            variants = (*CEMI_VARIANTS[:4], CEMI_VARIANTS[4 + i % 16], CEMI_VARIANTS[4 + (i * 7 + 5) % 16])
+        for variant in variants:
+            judge_cemi(ctx, raw, variant)
 
     ctx.sample({"apdu": "0000", "outcome": "GroupValueRead"})
     ctx.sample({"apdu": "03d0021234f00f", "outcome": "ConversionError (A_MemoryBit_Write number inconsistent with length)"})
@@ -416,7 +439,7 @@ def replay(ctx, witness):
         judge.apci(raw)
         judge.flush()
     elif kind == "cemi":
-        judge_cemi(ctx, raw, bool(witness.get("individual")))
+        judge_cemi(ctx, raw, CEMI_VARIANT_BY_NAME.get(witness.get("tpci"), CEMI_VARIANTS[0]))
     else:
         prefix = apci_mod.__file__.rsplit("/xknx/", 1)[0] + "/xknx/"
         with LineMonitor(prefix) as monitor:
